@@ -79,7 +79,7 @@ theorem failSigs_countP (l : Str) (reqs : List Request) (ts : List Nat) (sid : N
     (failSigs reqs ts sid).countP (lineIs l) = 0 := by
   induction ts generalizing sid with
   | nil => rfl
-  | cons t ts ih => simp [failSigs, List.countP_cons, ih, lineIs, Sig.carriesLine, failSig]
+  | cons t ts ih => simp [failSigs, ih, lineIs, Sig.carriesLine, failSig]
 
 theorem OnceOK_inputReceived {l : Str} {k : Nat} (P : Prog) (c : Cfg) (s : Sig) (rest : List Instr)
     (hc : c.code = .inputReceived s :: rest) (h : OnceOK l k c) : OnceOK l k (final (step P c)) := by
